@@ -89,9 +89,11 @@ type world struct {
 	connDead  bool
 	holdCh    chan struct{}
 	holdMu    sync.Mutex
+	fillMu    sync.Mutex
 	over      bool
 	okRounds  int
 	fillCh    chan struct{}
+	satArmed  bool
 	noReader  bool
 	d4        map[string]bool
 	cmdIndex  int
@@ -244,17 +246,24 @@ func (w *world) releaseHeld() {
 
 // fill occupies every free slot of the library's goroutine pool until unfill.
 func (w *world) fill() {
-	w.fillCh = make(chan struct{})
-	ch := w.fillCh
+	ch := make(chan struct{})
+	w.fillMu.Lock()
+	w.fillCh = ch
+	w.fillMu.Unlock()
 	for i := 0; i < 4*poolSize && erpc.Go(func() { <-ch }); i++ {
 	}
 }
 
 func (w *world) unfill() {
+	w.mu.Lock()
+	w.satArmed = false
+	w.mu.Unlock()
+	w.fillMu.Lock()
 	if w.fillCh != nil {
 		close(w.fillCh)
 		w.fillCh = nil
 	}
+	w.fillMu.Unlock()
 }
 
 // waitSaturated returns when the released actor has got as far as it can with the pool full:
@@ -320,7 +329,24 @@ func (w *world) applyAttempt() {
 }
 
 func (w *world) statusObs(s erpc.Session, to int32) {
-	if erpc.VerifStatusName(to) != "redialing" || !w.isMine(s) {
+	if !w.isMine(s) {
+		return
+	}
+	if erpc.VerifStatusName(to) == "ok" {
+		// the round has just stored Ok; next it indexes the session and starts the read loop.
+		// Saturate the pool exactly now if the case asks for it.
+		w.mu.Lock()
+		arm := w.satArmed && w.inRound
+		if arm {
+			w.satArmed = false
+		}
+		w.mu.Unlock()
+		if arm {
+			w.fill()
+		}
+		return
+	}
+	if erpc.VerifStatusName(to) != "redialing" {
 		return
 	}
 	w.mu.Lock()
